@@ -406,7 +406,7 @@ theorem C08_permitted_exchange_succeeds_warm (st : St) (a b : Nat) (ndA ndB : No
     (hrep : replyCount ndA.replies st.nextId = none)
     (pAB : Path st.nodes (.echoReq st.nextId) ifA.ip ifB.ip r1 i1 ifA.mac eA.mac b 0 fsB ifB.mac c1 h1)
     (pBA : Path st.nodes (.echoRep st.nextId) ifB.ip ifA.ip r2 i2 ifB.mac eB.mac a 0 fsA ifA.mac c2 h2)
-    (hh1 : h1 ≤ 62) (hh2 : h2 ≤ 62) :
+    (hh1 : h1 ≤ 62) (hh2 : h2 ≤ 62) (hlo : isLoopback ifB.ip = false) :
     (ping (fuel + c1 + c2 + 8) st a ifB.ip 1).2 = true := by
   obtain ⟨pA, hpA, hpAen⟩ := hA.peerUp
   obtain ⟨pB, hpB, hpBen⟩ := hB.peerUp
@@ -470,7 +470,7 @@ theorem C08_permitted_exchange_succeeds_warm (st : St) (a b : Nat) (ndA ndB : No
     host_resolveOut_warm (fuel + c1 + c2 + 6) st1 a ndA ifA ifB.ip eA (nodeA st1 rfl) hA.kind hA.ifs hA.enabled hA.route
   unfold ping
   simp only [st1, ident] at hro1 s1
-  simp only [nodeA st rfl, hA.on, Bool.not_true, Bool.false_eq_true, if_false, List.range_one, List.foldl_cons, List.foldl_nil,
+  simp only [nodeA st rfl, hA.on, hlo, Bool.not_true, Bool.false_eq_true, if_false, List.range_one, List.foldl_cons, List.foldl_nil,
     hro1, s1]
   simp only [node?_modNode, if_true, node?_emit, nodeA st6 n6, Option.map_some, Bool.true_and]
   rw [replyCount_bump ndA.replies st.nextId hrep]
@@ -633,6 +633,7 @@ example : (ping (0 + 11 + 11 + 8) lvSt 0 lvB 1).2 = true :=
   C08_permitted_exchange_succeeds_warm lvSt 0 4 lvHostA lvHostB lvHostA.ifaces[0] lvHostB.ifaces[0]
     { ip := 0xC0A80101#32, mac := 21, ifc := 0 } { ip := 0xC0A80201#32, mac := 31, ifc := 0 } 1 0 3 1 21 31 11 5 11 5 0
     lvWarmA lvWarmB (by decide) (lvPathAB _ (by decide) (by decide)) (lvPathBA _ (by decide) (by decide)) (by decide) (by decide)
+    (by decide)
 
 /-- … and so do those of the service theorem (the router carries the permit rule, every firewall list permits). -/
 example : (requestService (0 + 11 + 11 + 8) lvSt 0 lvB).2 = true :=
